@@ -62,7 +62,8 @@ def gen_case(rng, spec):
         name = rng.choice(sorted(LONG_TEMPLATES))
         return {"long": name, "N": 300 if spec.get("tier") == "quick" else rng.choice([600, 1100]), "alg": "earley" if rng.random() < 0.8 else "cky"}
 
-    g = GG.gen_grammar(rng)
+    # mutual left recursion is where the left-corner filter of PREDICT can go wrong: a quarter of the cases
+    g = GG.gen_grammar(rng, template="left_corner_cycle" if rng.random() < 0.25 else None)
     maxlen = 3 if spec.get("tier") == "quick" else 4
     if len(g["V"]) >= 3:
         maxlen -= 1 if spec.get("tier") == "quick" else 1
